@@ -53,9 +53,11 @@ def call_wsgi(app, environ):
     return starts, items, exc
 
 
-def call_asgi(app, scope, messages=None, fd_reader=None):
+def call_asgi(app, scope, messages=None, fd_reader=None, alongside=None):
     """returns (list of sent messages, exception or None).  zerocopysend messages are
-    turned into {"type": ..., "bytes": what a server would read from the descriptor}"""
+    turned into {"type": ..., "bytes": what a server would read from the descriptor}.
+    alongside: a second scope; the same application object answers it in a concurrent task (every send of
+    either request suspends once, so the two calls interleave at every await); its messages are discarded"""
     sent = []
     msgs = list(messages or [{"type": "http.request", "body": b"", "more_body": False}])
 
@@ -86,10 +88,34 @@ def call_asgi(app, scope, messages=None, fd_reader=None):
                     data += d
             m["bytes"] = data
         sent.append(m)
+        if alongside is not None:
+            await asyncio.sleep(0)
+
+    async def both():
+        omsgs = [{"type": "http.request", "body": b"", "more_body": False}]
+
+        async def oreceive():
+            if omsgs:
+                return omsgs.pop(0)
+            await asyncio.sleep(3600)
+
+        async def osend(message):
+            await asyncio.sleep(0)
+
+        other = asyncio.ensure_future(app(alongside, oreceive, osend))
+        await asyncio.sleep(0)          # the other request is under way first
+        try:
+            await app(scope, receive, send)
+        finally:
+            await asyncio.wait([other], timeout=10)
+            if not other.done():
+                other.cancel()
+            elif not other.cancelled():
+                other.exception()       # retrieved: what the other request did is not this case's observation
 
     exc = None
     try:
-        run(app(scope, receive, send))
+        run(both() if alongside is not None else app(scope, receive, send))
     except BaseException as e:  # noqa
         exc = e
     return sent, exc
